@@ -74,6 +74,8 @@ def size_facts(f, cond, truth):
                 out.add(("ge", ka, vb + 1))
             elif op == ">=":
                 out.add(("ge", ka, vb))
+            elif op == "!=" and vb == 0:
+                out.add(("ge", ka, 1))
     return out
 
 
@@ -146,10 +148,52 @@ class SizeFlow(object):
         return state_before(self.cfg, self.ins, self.transfer, node)
 
 
-def sites(f):
-    """[(node, container expr, k, kind)]"""
+def back_wrappers(P):
+    """{usr: (parameter index, parameter name, container text)} for helpers whose whole body is
+    `return <expression over one parameter>.back()` / .front() with no size test - get_last_data_member(klass) and the like:
+    their call sites inherit the obligation"""
+    import re
+    out = {}
+    for g in P.all_funcs():
+        if g.dep or g.cfg() is None or not g.r["params"]:
+            continue
+        rets = [x for x in g.nodes() if x["k"] == "ReturnStmt" and x.get("c") and x["c"][0] is not None]
+        if len(rets) != 1 or any(x["k"] in ("IfStmt", "ConditionalOperator", "ForStmt", "WhileStmt") for x in g.nodes()):
+            continue
+        e = strip_casts(rets[0]["c"][0])
+        while e is not None and e["k"] in ("CXXConstructExpr", "ExprWithCleanups", "MaterializeTemporaryExpr", "CXXBindTemporaryExpr",
+                                           "ImplicitCastExpr") and len([c for c in e.get("c", []) if c is not None]) == 1:
+            e = strip_casts([c for c in e["c"] if c is not None][0])
+        if e is None or e["k"] != "CXXMemberCallExpr" or (g.decl(e) or {}).get("n") not in ("front", "back") or call_args(e):
+            continue
+        obj = strip_casts(member_call_object(e))
+        if not _is_vec(g.type(obj)):
+            continue
+        used = {y.get("d") for y in walk(obj) if y["k"] == "DeclRefExpr" and y.get("d") in g.r["params"]}
+        if len(used) != 1:
+            continue
+        p = next(iter(used))
+        out[g.u] = (g.r["params"].index(p), (g.unit.decl(p) or {}).get("n"), expr_str(g, obj), g.n)
+    return out
+
+
+def sites(f, wrappers=None):
+    """[(node, container expr or key text, k, kind)]"""
+    import re
     out = []
     for n in f.nodes():
+        if wrappers and n["k"] == "CallExpr" and (f.decl(n) or {}).get("u") in wrappers:
+            pi, pn, text, gname = wrappers[f.decl(n)["u"]]
+            args = call_args(n)
+            if pi < len(args) and args[pi] is not None:
+                a = strip_casts(args[pi])
+                while a is not None and a["k"] in ("CXXConstructExpr", "MaterializeTemporaryExpr", "ImplicitCastExpr", "CXXBindTemporaryExpr") and \
+                        len([c for c in a.get("c", []) if c is not None]) == 1:
+                    a = strip_casts([c for c in a["c"] if c is not None][0])
+                atxt = expr_str(f, a)
+                key = re.sub(r"\b%s\b" % re.escape(pn), atxt, text)
+                out.append((n, key, 0, "vec"))
+            continue
         if n["k"] == "CXXOperatorCallExpr" and n.get("op") == "[]" and len(n["c"]) == 3:
             obj, idx = strip_casts(n["c"][1]), n["c"][2]
             t = f.type(obj)
@@ -167,10 +211,11 @@ def sites(f):
 
 def run(ctx, P, funcs, prop, benign=None):
     n_sites = 0
+    wrappers = back_wrappers(P)
     for f in sorted(funcs, key=lambda x: (x.file, x.l0)):
         if f.dep or f.cfg() is None:
             continue
-        ss = sites(f)
+        ss = sites(f, wrappers)
         if not ss:
             continue
         ctx.analysed(f)
@@ -184,7 +229,7 @@ def run(ctx, P, funcs, prop, benign=None):
             if need <= 0:
                 continue           # s[0] on a std::string is defined even when empty
             n_sites += 1
-            key = expr_str(f, obj)
+            key = obj if isinstance(obj, str) else expr_str(f, obj)
             have = max([x[2] for x in st if x[1] == key] or [0])
             ent = "%s: %s needs size >= %d" % (short(f), expr_str(f, n), need)
             ent += occurrence_tag(seen, ent)
